@@ -161,7 +161,7 @@ CLAIMED.update({
    text="PARTIAL by design. Proved (Tie A): the handler table of cli.main() is regenerated from pyshacl/cli.py (translator/t3.py: except clauses in order, their exit_code, finally block, final sys.exit, early exits; class table of errors.py) and, over Python's except-dispatch semantics on method resolution orders, "
         "EVERY exception class deriving from Exception ends the command line with status 2 or 3, or 1 for a ValidationFailure whose text is written; status 0 only after a conforming report, status 1 only after a written non-conforming report or validation failure; documented families map to 2/3/1. "
         "Also proved (Tie A, translators t4 / t5): the subclass closures generated from pyshacl/rdfutil/closure.py terminate with a result on every graph (no RecursionError for chains of any length), and the list check generated from ShapesGraph._check_rdf_lists never runs out of fuel and accepts exactly the shapes graphs whose rdf:rest chains all end (ring and rho-shaped lists are a ShapeLoadError; after acceptance every list can be enumerated). "
-        "Also proved (Tie A, translator t6): the census of every `raise` statement of the modules on the validate() path - each raises a class of the documented families (below ReportableRuntimeError in errors.py, or NotImplementedError) or re-raises what it caught, is handled in the same function, is the signal of a helper every call of which sits in a try catching that class, or is one of the listed guards on Python argument types / code invariants. "
+        "Also proved (Tie A, translator t6): the census of every `raise` statement of the modules on the validate() path - each raises a class of the documented families (below ReportableRuntimeError in errors.py, or NotImplementedError) or re-raises what it caught, is handled in the same function, is the signal of a helper every call of which sits in a try catching that class, or is one of the listed guards on Python argument types / code invariants; every `assert` statement of those modules is one of 20 listed ones. "
         "NOT a theorem: that no undocumented exception class escapes validate() through an IMPLICIT raise (a failing expression, an rdflib / re error). That half is decided by enumeration on the real code: ~190 hand-written ill-formed shapes graphs (every core parameter with wrong node kinds/datatypes, malformed lists/paths, bad regex, broken or misplaced SPARQL, dangling references, malformed rules/functions/targets/expressions) x options, randomly damaged well-formed shapes graphs, and the same causes through `python -m pyshacl`.",
    note="Trusted: Coq kernel + vm_compute; translators T3, T4, T5, T6; the list of internal guards in coq/Mini/Raises.v (each with its reason); the dispatch model of coq/Mini/Cli.v (checked against cli.main() run in-process with 21 exception classes). The former findings (cyclic rdf:rest -> rdflib ValueError; 1500-long subclass chain -> RecursionError in rdflib) are repaired in /repo and recorded as fixed. "
         "Holds after fix commits 10d6351 (CLI), e7b54c1 (SPARQL text), bf69731, a8b486e, 6a6c2c7, d5fb213, 405affd and the sh:namespace fix in /repo.",
